@@ -101,7 +101,7 @@ def _cookie(r, n):
 
 def generate(rng, tier):
     r = rng.at("c54")
-    ops, pending = [], []
+    ops, pending, earlier = [], [], []
     nflow = ncookie = 0
     nsteps = r.choice([4, 6, 8, 10, 12, 16])
     port0 = r.choice(PORTS)
@@ -118,9 +118,27 @@ def generate(rng, tier):
                 rq["cookies"] = [["cli_a", "1"]] if r.random() < 0.7 else [["cli_a", "1"], ["cli_b", "2"]]
             ops.append(rq)
             cookies = []
-            for _ in range(r.choice([0, 1, 1, 1, 2, 3])):
-                cookies.append(_cookie(r, ncookie))
-                ncookie += 1
+            if earlier and r.random() < 0.3:
+                # revisit: the same (or a sibling) host deletes / overwrites cookies it has set before
+                h0, p0, cs0 = r.choice(earlier)
+                rq["host"], rq["port"] = (h0 if r.random() < 0.7 else r.choice(SITE_HOSTS)), p0
+                for c0 in cs0:
+                    c = dict(c0, value=f"v{ncookie}", expires=None, max_age=None)
+                    ncookie += 1
+                    y = r.random()
+                    if y < 0.35:
+                        c["max_age"] = r.choice([0, -5])
+                    elif y < 0.65:
+                        c["expires"] = r.choice([-86400, -30])
+                    elif y < 0.8:
+                        c["max_age"] = r.choice([20, 3600])
+                    cookies.append(c)
+            else:
+                for _ in range(r.choice([0, 1, 1, 1, 2, 3])):
+                    cookies.append(_cookie(r, ncookie))
+                    ncookie += 1
+            if cookies:
+                earlier.append((rq["host"], rq["port"], cookies))
             rs = {"op": "resp", "id": fid, "cookies": cookies}
             if r.random() < 0.75:
                 ops.append(rs)
@@ -229,10 +247,11 @@ def filter_matches(flt, rq):
         return False
     if flt == ".*":
         return True
+    # mitmproxy filter regexes are documented to be case-insensitive searches
     if flt == "~m GET":
-        return rq["method"] == "GET"
+        return "get" in rq["method"].lower()
     if flt == "~u /foo":
-        return "/foo" in rq["path"]
+        return "/foo" in rq["path"].lower()
     raise ValueError(flt)
 
 
@@ -364,7 +383,7 @@ def execute(sc):
                             where + f" although the response of step {rec['dead_step']} (from {rec['dead_by']}) deleted it with "
                                     "an expired Set-Cookie of the same name, Domain, port and Path")
                     elif expired_at(rec, now):
-                        bad("expired_cookie_attached", {"when": "later", "attrs": expiry_kind(c)},
+                        bad("expired_cookie_attached", {"when": "later"},
                             where + " although its expiry time has passed on the simulated clock")
                     elif rec["port"] != op["port"]:
                         bad("port_mismatch", {}, where + " although the port differs")
@@ -430,11 +449,14 @@ def execute(sc):
                     cpath = pa if (pa and pa.startswith("/")) else "/"
                     rec = {"c": c, "host": rq["host"], "port": rq["port"], "t": now, "storable": storable, "domain": domain,
                            "cpath": cpath, "dead": False, "dead_by": None, "dead_step": None,
-                           "ident": (c["name"], dom_attr if dom_attr else ("host-only", rq["host"]), rq["port"], pa)}
+                           "ident": (c["name"], ("attr", dom_attr) if dom_attr is not None else ("host-only", rq["host"]),
+                                     rq["port"], pa)}
                     rec["expired_at_set"] = expired_at(rec, now)
                     if not storable:
                         probe("rejected_foreign_domain")
-                    elif rec["expired_at_set"]:
+                    elif rec["expired_at_set"] and filter_matches(flt, rq) and dom_attr != "":
+                        # (a deletion only has to be honoured while the feature is enabled for this flow; the effect of
+                        #  an empty Domain attribute is undefined in RFC 6265 5.2.3)
                         for v in order:
                             o = recs[v]
                             if o["ident"] == rec["ident"] and o["storable"] and not o["dead"] and not o["expired_at_set"]:
